@@ -575,6 +575,10 @@ def gen_feature_program(rng):
     WORDS = ["Alpha", "Beta", "Gamma", "Delta", "Epsilon", "Zeta", "Eta", "Theta", "Iota", "Kappa", "Lambda", "Mu", "Nu", "Xi"]
     LANGS = [1033, 1036, 1031, 1049]
     feats = []
+
+    def langsp(lang):
+        # the language of a label may be written in decimal, as 0x... or as x...
+        return rng.choice(["%d" % lang, "%d" % lang, "0x%04X" % lang, "0x%x" % lang, "x%X" % lang, "x%04x" % lang])
     text = ["table(feature)"]
     used_ids = set([1])
     nfeat = rng.randint(1, 6)
@@ -601,7 +605,7 @@ def gen_feature_program(rng):
             for lang in rng.sample(LANGS, rng.randint(1, 3)) if rng.random() < 0.4 else [1033]:
                 lab = "%s %d-%d" % (rng.choice(WORDS), k, lang)
                 labels.append([lang, lab])
-                body.append('name.%d = string("%s");' % (lang, lab))
+                body.append('name.%s = string("%s");' % (langsp(lang), lab))
         settings = []
         dflt = None
         if rng.random() < 0.8:
@@ -615,7 +619,7 @@ def gen_feature_program(rng):
                     for lang in ([1033, 1036] if rng.random() < 0.25 else [1033]):
                         lab = "%s s%d-%d-%d" % (rng.choice(WORDS), k, j, lang)
                         slabels.append([lang, lab])
-                        inner.append('name.%d = string("%s");' % (lang, lab))
+                        inner.append('name.%s = string("%s");' % (langsp(lang), lab))
                 settings.append({"value": v, "labels": slabels})
                 sbody.append("s%d_%d { %s }" % (k, j, " ".join(inner)))
             body.append("settings { %s }" % " ".join(sbody))
